@@ -24,7 +24,7 @@ class Ops(SeriesOps):
         "to_dict", "itertuples", "iterrows", "items", "head", "tail", "sample", "sum", "min", "max", "insert", "to_csv",
         "sort_index", "get", "pipe", "equals", "nunique", "count", "mean", "any", "all", "isna", "isnull", "notna", "info",
         "applymap", "map", "explode", "pivot_table", "to_json", "set_axis", "squeeze", "transpose", "add_prefix", "add_suffix",
-        "nlargest", "nsmallest", "cumsum", "abs", "agg", "aggregate", "update", "append", "to_records", "to_string", "clip", "where",
+        "nlargest", "nsmallest", "cumsum", "abs", "shift", "agg", "aggregate", "update", "append", "to_records", "to_string", "clip", "where",
     }
     GB_METHODS = {"agg", "aggregate", "sum", "max", "min", "mean", "count", "size", "first", "last", "describe", "groups", "cumsum",
                   "shift", "apply", "transform", "std", "median", "nunique", "head", "tail", "cummax", "idxmax", "idxmin", "ngroup", "cumcount"}
@@ -372,6 +372,11 @@ class Ops(SeriesOps):
         nd = to_term(pos[0] if pos else kw.get("decimals", 0))
         return self._wrap_all(f, lambda t: ("round", t, nd), node, "round")
 
+    def f_shift(self, f, pos, kw, node):
+        k = pos[0] if pos else kw.get("periods", 1)
+        ctx = f.ctx()
+        return self._wrap_all(f, lambda t: T.win("shift", (k,), t, ctx), node, "shift")
+
     def f_replace(self, f, pos, kw, node):
         mp = to_term(pos[0] if pos else kw.get("to_replace"))
         return self._wrap_all(f, lambda t: ("replace", mp, t), node, "replace")
@@ -523,6 +528,8 @@ class Ops(SeriesOps):
     def _keyterm(self, f: Frame, k: Any) -> T.Term:
         if k == "__index__":
             return self.index_term(f)
+        if isinstance(k, str) and f.index_name == k and f.has(k) is not True:
+            return self.index_term(f)
         if isinstance(k, str):
             return f.col(k)
         return to_term(k)
@@ -560,26 +567,26 @@ class Ops(SeriesOps):
             if sy and name.endswith(sy) and overlap(name[: -len(sy)]) and Rs.has(name) is not True:
                 return right(Rs.col(name[: -len(sy)]))
             inl, inr = Ls.has(name), Rs.has(name)
-            # right join key column named differently stays as right column; right index key disappears
-            if inl is True and inr is True:
-                if sx == "" and sy != "":
-                    return left(Ls.col(name))
-                if sy == "" and sx != "":
-                    return right(Rs.col(name))
-                return T.opaque(f"column {name!r} exists on both sides of the join (needs a suffix)")
-            if inl is True:
-                return left(Ls.col(name))
-            if inr is True:
-                return right(Rs.col(name))
             if inl is False and inr is False:
                 return T.opaque(f"column {name!r} on neither side of the join")
-            if inr is None and inl is None:
+            if inl is not False and inr is not False and not (inl is None and inr is None):
+                # the name may exist on both sides: pandas keeps the bare name only for an empty suffix
+                if inl is True and inr is True or (inl is None) or (inr is None):
+                    if inr is None and inl is True and (sx != "" or sy == ""):
+                        return left(Ls.col(name)) if sx == "" or True else None
+                    if sx == "" and sy != "":
+                        return left(Ls.col(name))
+                    if sy == "" and sx != "":
+                        return right(Rs.col(name))
+                    if inl is None and inr is True:
+                        return right(Rs.col(name)) if False else T.opaque(f"column {name!r} may exist on both join sides (suffixes {sfx})")
+                    return T.opaque(f"column {name!r} exists on both sides of the join (needs a suffix)")
+            if inl is None and inr is None:
                 return T.opaque(f"column {name!r}: both join sides are open-world")
-            if inr is None:   # left known and does not have it
-                return right(Rs.col(name)) if inl is False else left(Ls.col(name))
-            # inl is None (left open world), right known
-            if inr is False:
+            if inr is False or inr is None and inl is True:
                 return left(Ls.col(name))
+            if inl is False:
+                return right(Rs.col(name))
             return left(Ls.col(name))
 
         lc, rc = Ls.colnames(), Rs.colnames()
